@@ -39,7 +39,7 @@ fn families(t: Tier) -> Vec<(&'static str, u64)> {
     vec![("training", t.n(2_500, 250_000)), ("disturbed", t.n(1_500, 150_000))]
 }
 fn floors(_t: Tier) -> Vec<(&'static str, u64)> {
-    vec![("evaluations", 400), ("iterations_checked", 1_500), ("parameter_gradients_compared", 4_000), ("conv_histories", 60), ("batched_histories", 150), ("disturbed_iterations_checked", 600), ("frozen_parameters_checked", 150), ("iterations_after_abandoned_forward", 150), ("iterations_after_parameter_edit", 100), ("iterations_with_forward_before_update", 150), ("histories_with_user_defined_layers", 200)]
+    vec![("evaluations", 400), ("iterations_checked", 1_500), ("parameter_gradients_compared", 4_000), ("conv_histories", 60), ("batched_histories", 150), ("disturbed_iterations_checked", 600), ("frozen_parameters_checked", 150), ("iterations_after_abandoned_forward", 150), ("iterations_after_parameter_edit", 100), ("iterations_with_forward_before_update", 150), ("histories_with_user_defined_layers", 200), ("backward_calls_after_update_checked", 100)]
 }
 
 pub fn run_case(ctx: &mut Ctx, fam: &str, _k: u64, r: &mut Rng) {
@@ -81,6 +81,9 @@ pub fn run_case(ctx: &mut Ctx, fam: &str, _k: u64, r: &mut Rng) {
     let mut tracked_now = vec![true; n_params];
     let mut tracked_at: Vec<Vec<bool>> = vec![];
     let mut notes: Vec<String> = vec![];
+    // a backward call after the update differentiates the graph of the REPLACED parameters: clones of them (a
+    // checkpoint) rightly see those gradients, so a history uses either such calls or restores from a checkpoint
+    let late_backward_history = r.chance(1, 2);
     for t in 0..n_iter {
         if disturbed {
             if r.chance(1, 4) {
@@ -98,6 +101,10 @@ pub fn run_case(ctx: &mut Ctx, fam: &str, _k: u64, r: &mut Rng) {
                 }
                 iterations[t].late_forward = Some(gen_input(r, &s, false));
                 notes.push(format!("{}:forward-between-backward-and-update", t));
+            }
+            if late_backward_history && r.chance(1, 4) && iterations[t].late_forward.is_none() {
+                iterations[t].late_backward = true;
+                notes.push(format!("{}:backward-again-after-update", t));
             }
             if t >= 1 && r.chance(1, 3) {
                 let mut freeze = vec![None; n_params];
@@ -121,7 +128,7 @@ pub fn run_case(ctx: &mut Ctx, fam: &str, _k: u64, r: &mut Rng) {
                 }
                 // early stopping / best-checkpoint: a parameter restored from a handle clone taken before training
                 let mut restores = vec![];
-                if r.chance(1, 3) {
+                if !late_backward_history && r.chance(1, 3) {
                     let k = r.below(n_params);
                     if !edits.iter().any(|(j, _)| *j == k) {
                         restores.push(k);
@@ -268,6 +275,13 @@ pub fn run_case(ctx: &mut Ctx, fam: &str, _k: u64, r: &mut Rng) {
         if !(e <= tau() * loss_scale * 10.0) {
             ctx.violation("C14|loss", format!("iteration {}: returned loss {} but the loss of the current parameters on the current batch is {}\n{}", t, run.losses[t], loss, desc));
             return;
+        }
+        if let Some((_, l2)) = run.late_losses.iter().find(|(i, _)| *i == t) {
+            ctx.count("backward_calls_after_update_checked", 1);
+            if !((l2 - loss).abs() <= tau() * loss_scale * 10.0) {
+                ctx.violation("C14|loss-of-backward-after-update", format!("iteration {}: backward called again after the update (same forward pass, same target) returned {} but the cost array of that forward pass sums to {}\n{}", t, l2, loss, desc));
+                return;
+            }
         }
         let mult = if it.double_backward { 2.0 } else { 1.0 };
         if ctx.verbose {
